@@ -146,7 +146,8 @@ def run(out, tier, seed, proof):
     kws = []
     for _ in range(24 if tier == "quick" else 200):
         args = []
-        for j, form in enumerate(rng.sample(["python", "path_default", "kwargs", "python_nohash", "mixed_default", "typed_default", "typed_kwargs"], rng.randint(1, 3))):
+        for j, form in enumerate(rng.sample(["python", "path_default", "kwargs", "python_nohash", "mixed_default", "typed_default", "typed_kwargs",
+                                             "handover", "handover_init", "handover_mixed_default"], rng.randint(1, 3))):
             nid = [10 * (j + 1)]
             t = gen_tree(rng, rng.randint(1, 3), nid, none_ok=False)
             if not leaves_of(t):
